@@ -38,6 +38,18 @@ package constraint
 //@ contract iface Field.Inverse
 //@   pure
 //@   ensures (a == f0 ==> !result.1) && (a != f0 ==> result.1 && result.0 == finv(a))
+//@ contract iface Field.FromInterface
+//@   pure
+//@   ensures result == constOf(arg0)
+//@ contract iface Field.IsOne
+//@   pure
+//@   ensures result == (arg0 == f1)
+//@ contract iface Field.One
+//@   pure
+//@   ensures result == f1
+//@ contract iface Field.ToBigInt
+//@   pure
+//@   ensures result != nil && fresh(result) && allocated(result) && ofInt(*result) == arg0 && 0 <= *result && *result < fieldP()
 //@ contract iface Field.String
 //@   pure
 //@ contract iface Element.IsZero
